@@ -70,7 +70,8 @@ def snapshot(v):
     if isinstance(v, (int, str, bool, type(None), float, tuple)):
         return v
     if isinstance(v, list):
-        return list(v)
+        # records (Token, Delimiter, Rule ...) are mutated in place by the code under contract: copy them one level
+        return [copy.copy(x) if hasattr(x, "__dataclass_fields__") else x for x in v]
     if isinstance(v, dict):
         return copy.deepcopy(v)
     try:
@@ -81,7 +82,7 @@ def snapshot(v):
     if d is not None:
         for k, x in list(d.items()):
             if isinstance(x, list):
-                d[k] = list(x)
+                d[k] = [copy.copy(y) if hasattr(y, "__dataclass_fields__") else y for y in x]
             elif isinstance(x, dict) and k not in ("env",):
                 d[k] = dict(x)
             elif k == "__rules__":
